@@ -286,6 +286,43 @@ class validate_rechunk_r1:
                 yield {"old_chunks": (a,), "new_chunks": (b,)}
 
 
+def _validate_unknown(spec, old_t, new_t, must_raise):
+    @contract(f"{RC}::_validate_rechunk", spec=spec, props=["C28", "C14"])
+    class validate_rechunk_unknown:
+        """along an axis with unknown (NaN) sizes a rechunk is accepted only when the layout is left exactly as it is
+        (same number of blocks, NaN against NaN); anything else raises ValueError instead of dropping or inventing blocks"""
+        params = {"old_chunks": old_t, "new_chunks": new_t}
+        raises = {"ValueError": (lambda old_chunks, new_chunks: True) if must_raise else (lambda old_chunks, new_chunks: False)}
+
+        def requires(old_chunks, new_chunks):
+            return True
+
+        def ensures(result, old_chunks, new_chunks):
+            return {"accepted-only-when-the-unknown-axis-is-unchanged": not must_raise}
+
+        def domain(tier, rng):
+            import math
+            nan = math.nan
+
+            def mk(t):
+                axes = []
+                for ax in t[4:].replace("(", "").replace(")", "").split("tup:")[1:]:
+                    axes.append(tuple(nan if k.strip() == "nan" else 2 for k in ax.strip(" ,").split(",")))
+                return tuple(axes)
+            yield {"old_chunks": mk(old_t), "new_chunks": mk(new_t)}
+
+    validate_rechunk_unknown.__name__ = "validate_rechunk_" + spec.replace("-", "_")
+    return validate_rechunk_unknown
+
+
+VRU1 = _validate_unknown("nan2-to-nan1", "tup:(tup:nan,nan)", "tup:(tup:nan)", True)
+VRU2 = _validate_unknown("nan2-to-nan2", "tup:(tup:nan,nan)", "tup:(tup:nan,nan)", False)
+VRU3 = _validate_unknown("nan1-to-nan3", "tup:(tup:nan)", "tup:(tup:nan,nan,nan)", True)
+VRU4 = _validate_unknown("int-nan-to-nan", "tup:(tup:int,nan)", "tup:(tup:nan)", True)
+VRU5 = _validate_unknown("nan2-to-int2", "tup:(tup:nan,nan)", "tup:(tup:int,int)", True)
+VRU6 = _validate_unknown("r2-known-axis-and-nan3-to-nan2", "tup:(tup:int,int),(tup:nan,nan,nan)", "tup:(tup:int,int),(tup:nan,nan)", True)
+
+
 from contracts.chunks import uniform_axis, _full_or  # noqa: E402
 
 
